@@ -80,6 +80,7 @@ type seqProfile struct {
 	overlap     bool // C03: bias to the same keys inside transactions
 	levels      []int
 	held        int // percent chance per step of opening a reader that is read only some steps later
+	heldW       int // percent chance per step of creating a file whose remaining writes and Close come some steps later
 }
 
 func genSeqCase(r *simrt.Rand, p seqProfile) SeqCase {
@@ -133,9 +134,42 @@ func genSeqCase(r *simrt.Rand, p seqProfile) SeqCase {
 			}
 		}
 	}
+	type pw struct{ slot, tx int }
+	var pendingW []pw
+	nextWriter := 0
+	flushWriters := func(tx int, all bool) { // tx: only the files of that transaction (-2 = any)
+		for i := 0; i < len(pendingW); {
+			if tx == -2 || pendingW[i].tx == tx {
+				c.Ops = append(c.Ops, Op{K: "cclose", N: pendingW[i].slot})
+				pendingW = append(pendingW[:i], pendingW[i+1:]...)
+				if !all {
+					return
+				}
+				continue
+			}
+			i++
+		}
+	}
 	for len(c.Ops) < nsteps {
 		if len(pending) > 0 && r.Intn(100) < 25 {
 			flushReaders(false)
+		}
+		if len(pendingW) > 0 && r.Intn(100) < 25 {
+			flushWriters(-2, false)
+		}
+		if p.heldW > 0 && len(pendingW) < 2 && r.Intn(100) < p.heldW {
+			tx := -1
+			if p.txWeight > 0 && len(open) > 0 && r.Intn(2) == 0 {
+				tx = open[r.Intn(len(open))]
+			}
+			id++
+			nextWriter++
+			o := Op{K: "copen", Tx: tx + 1, Key: pickKey(), ID: id, Size: genSize(r, p.big), N: nextWriter}
+			o.Writes = splitWrites(r, o.Size)
+			o.Pre = r.Intn(len(o.Writes) + 1)
+			c.Ops = append(c.Ops, o)
+			pendingW = append(pendingW, pw{nextWriter, tx})
+			continue
 		}
 		if p.held > 0 && len(pending) < 2 && r.Intn(100) < p.held {
 			tx := -1
@@ -163,6 +197,7 @@ func genSeqCase(r *simrt.Rand, p seqProfile) SeqCase {
 		}
 		if p.reopen > 0 && r.Intn(100) < p.reopen {
 			flushReaders(true) // readers of the instance that is about to be closed are read first
+			flushWriters(-2, true)
 			c.Ops = append(c.Ops, Op{K: "reopen"})
 			// handles obtained from the closed instance are not used any more (outside the
 			// statements); what is checked after a reopen is that late calls made before it left
@@ -217,6 +252,7 @@ func genSeqCase(r *simrt.Rand, p seqProfile) SeqCase {
 			if r.Intn(3) == 0 {
 				k = "rollback"
 			}
+			flushWriters(tx, true) // files created through a transaction are closed before it ends
 			c.Ops = append(c.Ops, Op{K: k, Tx: tx + 1})
 			for i, t := range open {
 				if t == tx {
@@ -258,6 +294,7 @@ func genSeqCase(r *simrt.Rand, p seqProfile) SeqCase {
 		}
 	}
 	flushReaders(true)
+	flushWriters(-2, true)
 	decorateCtx(r, c.Ops)
 	return c
 }
